@@ -1246,6 +1246,13 @@ br_ssl_engine_recvrec_ack(br_ssl_engine_context *cc, size_t len)
 			 */
 			if (cc->application_data == 2) {
 				recvpld_ack(cc, len);
+
+				/*
+				 * Discarding the record may have released
+				 * a shared buffer for which the closure
+				 * code is waiting to send its close_notify.
+				 */
+				jump_handshake(cc, 0);
 				break;
 			}
 
